@@ -269,13 +269,20 @@ def run(tier):
     chk.assumptions = [
         'TLC 1.8 on spec/TopologyOn.tla checks all Topology invariants (count formula, junction structure) on the ground model and on the mirror model of every case; the relation N_free = 2 N_ground - #ground pulses is evaluated on the two records',
         'the pulse correspondence (with signs) is derived by the harness from pulse positions and directions of the two real models',
-        'seven grounded structures (harness/c03.py), every wire order and direction choice, every single feed pulse and two seeded two-source sets per description; tolerance of the property with its condition-number rule']
+        'eight fixed grounded structures (harness/c03.py) plus seeded random grounded trees of 2..4 wires (2 quick, 30 thorough), every wire order and direction choice, every single feed pulse and two seeded two-source sets per description; tolerance of the property with its condition-number rule']
+    # besides the fixed list: seeded random grounded trees of 2 .. 4 wires (harness/describe.py)
+    for k in range(2 if tier == 'quick' else 30):
+        rs = random.Random('c03-structure/%s/%d' % (C.seed(), k))
+        pts, ws, _ = D.random_structure(rs, ground=True)
+        GROUNDED['random-%s-%d' % (C.seed(), k)] = (pts, ws)
     cases = []
     for name, (points, wires) in sorted(GROUNDED.items()):
         n = len(wires)
         perms = list(itertools.permutations(range(n)))
         if tier == 'quick':
             perms = perms[:2]
+        elif name.startswith('random'):
+            perms = perms[:4]
         for perm in perms:
             for dirs in itertools.product((1, -1), repeat=n):
                 cases.append((name, perm, dirs, False, C.seed()))
